@@ -8,6 +8,38 @@ PY = "/venv/bin/python"
 
 # id -> (category, technique, level text, level note, design ref)
 CHECKS = {
+    "C01": ("exploration", "offline yield-history checker (unique items) over real pool executions; schedule perturbation by "
+            "sys.monitoring LINE-hook delay sweep (every executed statement x occurrence), random-k delays, forced GIL "
+            "hand-offs",
+            "Single-call cases over the configuration grid run on the real pool (real manager, queues, processes); each "
+            "is repeated with one 120 ms delay at every statement the undisturbed run executed in consumer, feeder, "
+            "replacer and worker code, plus random delay combinations; every yield history is checked for lost, "
+            "duplicated, reordered, invented results.",
+            "Observation of executions: every one-preemption schedule at statement granularity of the swept cases, "
+            "sampled deeper ones; races inside one statement or inside multiprocessing are out of reach.",
+            "DESIGN.md §5 C01"),
+    "C02": ("exploration", "quiescence (deadlock) oracle on real pool executions: no event / line event / cpu tick / stack "
+            "change and no pending delay for 1.6 s with the consumer unfinished; same delay sweep; slow and "
+            "late-exhausting inputs; flow-control workloads",
+            "Termination is restated as bounded progress and decided by state: a run is a violation only when the whole "
+            "process tree is provably idle while the generator has not ended or the pool context has not been left; "
+            "wall-clock limits only yield 'inconclusive'.",
+            "Liveness over a finite run: a livelock that keeps executing statements would end as inconclusive.",
+            "DESIGN.md §5 C02"),
+    "C03": ("exploration", "per-call yield-history checker with call-tagged items + quiescence oracle + exception monitor over "
+            "multi-call histories with worker quotas; delay sweep over replace thread, retire path, end of imap",
+            "Histories of 2-6 calls on one pool, quotas placed so that workers retire before / exactly at / after the end "
+            "of a call, each history swept with single delays at every executed statement; every call must return "
+            "exactly its own items, raise nothing, and the pool must never become quiescent with pending work.",
+            "As C01/C02; queue residue between calls is diagnostic only.", "DESIGN.md §5 C03"),
+    "C04": ("fault_enumeration", "offline checker over a cross-process event log (begin/item/end per worker under one shared "
+            "sequence counter) + /proc liveness scan after pool exit; enumerated faults in begin() and in the functor; "
+            "delay sweep on fault-free cases",
+            "Per worker exactly one begin before the first item and one end after the last (also after an injected "
+            "exception in begin or in the functor at the first/middle/last item), quota respected, until_all_ready "
+            "after every begin, no worker pid alive after the context, exit never quiescent.",
+            "Fault positions enumerated: begin of worker k / of a replacement worker, functor at 3 item positions; "
+            "fault runs assert lifecycle facts only.", "DESIGN.md §5 C04"),
     "C06": ("exploration", "reference-model monitor (recency-ordered dict) after every operation of seeded histories + "
             "statement-budget progress oracle via sys.monitoring",
             "Every operation of thousands of generated histories is compared with an ordered-dict model (result, "
@@ -117,7 +149,7 @@ def main():
             na.append({"property_id": pid, "reason": NA.get(pid, PENDING_REASON)})
     m = {
         "version": 1,
-        "setup_cmd": f"{PY} -c \"import sys; sys.path.insert(0, '/verif'); import vf.common, vf.instr, vf.seq; "
+        "setup_cmd": f"{PY} -c \"import sys; sys.path.insert(0, '/verif'); import vf.common, vf.instr, vf.seq, vf.pool_engine; "
                      f"print('vf ok')\"",
         "hooks": {
             "guard": "WINDPYUTILS_VERIF",
